@@ -125,8 +125,15 @@ SlowWrite(z) ==
     \cup {LET a == Args(3, 1, 10, 2, <<>>, <<>>, 0, 4660) R == ReplyTo(FramingOf(cl), a, <<1, 0>>)
           IN Exch(cl, a, R, <<[k |-> "rslow", n |-> 300, e |-> ""], Chunk(3), Chunk(Len(R) - 3)>>, "none", 0, 0) : cl \in Clients \ {"serial"}}
 
+\* a reply with a proper prefix that is itself "bytes followed by their CRC" (the FC16 reply whose address field equals
+\* the CRC of <<unit, 16>>), cut exactly there, with a quiet read in between: the silence does not end the frame
+PrefixCRC(z) ==
+    LET t == CRCTrailer(<<1, 16>>)
+        a == Args(16, 1, t[1] * 256 + t[2], 2, <<1, 2, 3, 4>>, <<>>, 0, 77)
+    IN UNION {{LET R == ReplyTo("rtu", a, <<1, 0>>) IN Exch(cl, a, R, <<Chunk(4), Empty(e), Chunk(Len(R) - 4)>>, "none", 0, 0) :
+                  e \in EmptyKinds(cl)} : cl \in {"rtu", "serial"}}
 C07Cases(z) ==
-    (IF Part = 0 THEN UNION {HistCases(cl) : cl \in Clients} \cup DefaultBenign(0) \cup SlowWrite(0) ELSE {}) \cup
+    (IF Part = 0 THEN UNION {HistCases(cl) : cl \in Clients} \cup DefaultBenign(0) \cup SlowWrite(0) \cup PrefixCRC(0) ELSE {}) \cup
     UNION {UNION {Benign(cl, a, ReplyTo(FramingOf(cl), a, v)) : v \in (IF a.fc = 17 THEN F17Variants ELSE {<<1, 0>>})} :
               cl \in Clients, a \in {x \in ReqShapes("s") : InPart(x.fc + 3)}}
     \cup UNION {Benign(cl, a, ReplyTo(FramingOf(cl), a, <<2, 2>>)) : cl \in Clients, a \in {x \in ReqShapes("m") : x.fc \in {1, 2, 3, 4, 23} /\ InPart(x.fc)}}
@@ -145,6 +152,9 @@ C07Cases(z) ==
 PrefixLens(L) == IF L <= 14 \/ Thorough THEN 0..(L - 1) ELSE {0, 1, 2, 3, 4, 5, 6, 7, 8, 9, 10, L \div 2, L - 2, L - 1}
 PrefixScript(p, cutAt) == IF p = 0 THEN <<>> ELSE IF cutAt > 0 /\ cutAt < p THEN <<Chunk(cutAt), Chunk(p - cutAt)>> ELSE <<Chunk(p)>>
 
+Pause(ms) == [k |-> "pause", n |-> ms, e |-> ""]
+RECURSIVE Trickle(_, _)
+Trickle(k, ms) == IF k = 0 THEN <<>> ELSE <<Chunk(1), Pause(ms)>> \o Trickle(k - 1, ms)
 FaultCases(cl, a, R) ==
     LET L == Len(R) IN
     UNION {{Exch(cl, a, R, PrefixScript(p, 0), "stall", 0, 0),
@@ -152,6 +162,9 @@ FaultCases(cl, a, R) ==
             Exch(cl, a, R, PrefixScript(p, 0) \o <<Term("ioerr")>>, "ioerr", 0, 0),
             Exch(cl, a, R, PrefixScript(p, 0) \o <<Term("cancel")>>, "cancel", 0, 0),
             Exch(cl, a, R, PrefixScript(p, 1) \o <<Empty("deadline"), Term("ioerr")>>, "ioerr", 0, 0)} : p \in PrefixLens(L)}
+    \* a peer that trickles: 14 single bytes, one every 150 ms (each gap shorter than the read timeout), then silence - the
+    \* read timeout is a TOTAL, the call ends when it has passed and not 2 s later
+    \cup (IF L >= 16 THEN {Exch(cl, a, R, Trickle(14, 150), "stall", 0, 0)} ELSE {})
     \* the caller's context carries a deadline of its own, shorter than the read timeout, and the peer stalls
     \cup {Exch(cl, a, R, PrefixScript(p, 0), "ctxdeadline", 0, 0) : p \in {0, 1, L \div 2} \cap (0..(L - 1))}
     \cup {Exch(cl, a, R, <<Term("writeerr")>>, "writeerr", 0, 0),
